@@ -27,7 +27,7 @@ def main():
         if r["detected"]:
             res = "detected (%d VIOLATION lines)" % r["violation_lines"]
         else:
-            res = "NOT detected (exit %s)" % r["check_exit"]
+            res = "NOT detected (exit %s)%s" % (r["check_exit"], (": " + r["note"]) if r.get("note") else "")
         if r.get("first_run"):
             res += " - after strengthening; first run: exit %s" % r["first_run"]["check_exit"]
         out.append("| %s | %s | %s | %s |" % (n, r["property"], needs, res))
